@@ -20,3 +20,49 @@ Theorem C19_object_variant : forall v,
   to_serde_json_object_t v = match v with VObj _ => res_map Some (to_serde_json_t v) | _ => Ok None end.
 Proof. exact serde_object_variant. Qed.
 Print Assumptions C19_object_variant.
+
+(* ---- the byte walker itself (SerdeWalk.v: containter_to_serde_json / scalar_to_serde_json over iterate_object_entries /
+   iterate_array, recursing on the payload sub-slices, with a failed read as an error and a slice out of bounds as a
+   panic): on the encoding of any well-formed v it returns the tree conversion of v — no read fails, nothing panics, the
+   only error is the tree conversion's own (a NaN or an infinity somewhere in the document). *)
+From JB Require Import Codec DispatchProofs SerdeWalk SerdeWalkProofs.
+
+Theorem C19_to_serde_json_bytes : forall v, wfb v = true -> top_ok v -> to_serde_json_w (enc v) = to_serde_json_t (normalise v).
+Proof. exact to_serde_json_w_enc_norm. Qed.
+Print Assumptions C19_to_serde_json_bytes.
+
+Theorem C19_to_serde_json_object_bytes : forall v, wfb v = true -> top_ok v ->
+  to_serde_json_object_w (enc v) = to_serde_json_object_t (normalise v).
+Proof. exact to_serde_json_object_w_enc_norm. Qed.
+Print Assumptions C19_to_serde_json_object_bytes.
+
+(* ... which is also the tree conversion of v as it stands (the decoder's representation change is invisible) *)
+Theorem C19_to_serde_json_bytes_exact : forall v, wfb v = true -> top_ok v ->
+  to_serde_json_w (enc v) = to_serde_json_t v /\ to_serde_json_object_w (enc v) = to_serde_json_object_t v.
+Proof. intros v H T. split; [apply to_serde_json_w_enc|apply to_serde_json_object_w_enc]; assumption. Qed.
+Print Assumptions C19_to_serde_json_bytes_exact.
+
+(* so the bytes -> serde_json -> Value trip gives an equal document *)
+Theorem C19_bytes_roundtrip_equal : forall v s, wfb v = true -> top_ok v -> to_serde_json_w (enc v) = Ok s ->
+  cmp_value (serde_to_value s) v = Eq.
+Proof.
+  intros v s H T E. rewrite (to_serde_json_w_enc v H T) in E. apply (serde_roundtrip_equal v s); [|exact E].
+  unfold wfb in H. apply andb_true_iff in H. apply H.
+Qed.
+Print Assumptions C19_bytes_roundtrip_equal.
+
+(* a nested document with numbers of all three kinds, a string, an empty container; and a non-finite float *)
+Definition c19_doc : value :=
+  VObj [([97], VArr [VNum (NInt (-5)); VNum (NUInt 18446744073709551615); VNum (NFloat 4609434218613702656);
+                     VStr [104; 105]; VNull; VArr []]);
+        ([98], VObj [([99], VBool true); ([100], VNum (NInt 0))])].
+Example C19_bytes_example :
+  wfb c19_doc = true /\
+  to_serde_json_w (enc c19_doc)
+  = Ok (SObj [([97], SArr [SNum (SNeg (-5)); SNum (SPos 18446744073709551615); SNum (SFloat 4609434218613702656);
+                           SStr [104; 105]; SNull; SArr []]);
+              ([98], SObj [([99], SBool true); ([100], SNum (SPos 0))])]) /\
+  to_serde_json_object_w (enc c19_doc) = res_map Some (to_serde_json_w (enc c19_doc)) /\
+  to_serde_json_object_w (enc (VArr [c19_doc])) = Ok None /\
+  to_serde_json_w (enc (VArr [VNum (NFloat F_INF)])) = Err EOther.
+Proof. vm_compute. repeat split; reflexivity. Qed.
